@@ -242,7 +242,8 @@ def _run(ctx, replay):
                     marks = re.findall(r' APP!(\w+):(\S*)', a)
                     findings.append(dict(kind='libc-state', what='the call disturbed C-library state that the APPLICATION had in progress across it (process-global state): ' +
                                          '; '.join('%s: %s' % (k_, v_.replace('-', ' ').replace('_', ' ')) for k_, v_ in marks), ops=ops[:i + 1], env=env, got=a,
-                                         expected='the application\'s own strtok / rand / lrand48 sequences continue where they were, the buffers getenv / localtime / asctime / tmpnam / strerror returned, getopt\'s variables and the positions of stdin / stdout are untouched',
+                                         expected='the application\'s own strtok / rand / lrand48 sequences continue where they were, the buffers getenv / localtime / asctime / tmpnam / strerror returned, getopt\'s variables and the positions of stdin / stdout are untouched, '
+                                                  'uselocale(0) is the handle the calling thread had installed (its own locale object, or LC_GLOBAL_LOCALE)',
                                          label=label, probes=[k_ for k_, _ in marks])); break
             if a is not None and ' LOCALE>' in a:
                 findings.append(dict(kind='locale', what='the call changed the process locale: LC_ALL is now %s' % a[a.index('LOCALE>') + 7:].split(' ')[0], ops=ops[:i + 1], env=env,
@@ -264,6 +265,16 @@ def _run(ctx, replay):
         if len(h['states']) == 2:
             s0, s1 = [s.split(' | ') for s in h['states']]
             if s0[1] == 'C.utf8': stats['utf8_locale_held'] = True
+            if 'XRLV_THREAD_LOCALE' in env:
+                # non-vacuity of the thread-locale mode: the harness thread really runs on a locale object of its own, at the start and at the end
+                if ' tl=own:' not in s0[-1] or ' tl=own:' not in s1[-1]:
+                    rep['tie_broken'].append('%s: XRLV_THREAD_LOCALE=%s was requested but the harness thread is not on its own locale object (%s / %s)' % (label, env['XRLV_THREAD_LOCALE'], s0[-1], s1[-1]))
+                else:
+                    stats['thread_locale_histories'] = stats.get('thread_locale_histories', 0) + 1
+                    stats['thread_locale_checks'] = stats.get('thread_locale_checks', 0) + len(ops)
+                    if env['XRLV_THREAD_LOCALE'] == 'C.utf8' and s0[0] == 'C' and s0[-1].endswith(':UTF-8'): stats['thread_locale_differs_from_process_locale'] = True
+            elif ' tl=global:' not in s0[-1]:
+                rep['tie_broken'].append('%s: the harness thread does not start on LC_GLOBAL_LOCALE although no thread locale was requested (%s)' % (label, s0[-1]))
             if len(s0) > 4 and all(v == 'C.utf8' for v in cats_of(s0[4]).values()): stats['utf8_all_categories_held'] = True
             if s0[:2] != s1[:2] or s0[4:5] != s1[4:5]:
                 c0, c1 = cats_of(s0[4]) if len(s0) > 4 else {}, cats_of(s1[4]) if len(s1) > 4 else {}
@@ -348,6 +359,11 @@ def _run(ctx, replay):
             rep['tie_broken'].append('%s: MemorySanitizer harness exited %d: %s' % (label, h['rc'], h['stderr'][-300:]))
 
     C_ENV = dict(LC_ALL='C')
+    # the calling thread's OWN locale (harness/c16_hist.c, XRLV_THREAD_LOCALE): the harness thread installs uselocale(newlocale(LC_ALL_MASK, name, 0)) before
+    # the history and checks after EVERY call that uselocale(0) is still that handle and that the object still answers nl_langinfo as it did.  setlocale(…, NULL)
+    # — the per-call ` LOCALE>` observer — speaks about the process locale only.  Every generated history contains parser / _CP / Refractive_Index calls
+    # (hidden_state_groups), so a call that leaves the thread on another locale object is seen in each history that runs in this mode, whatever the seed.
+    def TL(env, name='C.utf8'): return dict(env, XRLV_THREAD_LOCALE=name)
     if replay:
         txt = open(replay).read()
         env = dict(re.findall(r'^#env (\w+)=(\S*)$', txt, flags=re.M)) or C_ENV
@@ -381,7 +397,8 @@ def _run(ctx, replay):
             ops = hidden_state_groups(g, ops)
             if i % 2 == 1: ops = ['XRayInit'] + ops           # with and without XRayInit
             all_ops += ops
-            check_history(ops, C_ENV, 'history %d' % i)
+            env_i = (C_ENV, TL(C_ENV), TL(C_ENV, 'C'), C_ENV)[i % 4]      # plain / own locale object C.utf8 over process locale C / own object "C" / plain
+            check_history(ops, env_i, 'history %d%s' % (i, ' (calling thread has its own locale object: uselocale(newlocale(%s)))' % env_i['XRLV_THREAD_LOCALE'] if len(env_i) > 1 else ''))
         # the unsanitized build (real allocator, real block re-use) and the MemorySanitizer build: one generated history each, heap-residue groups included
         for Hx_, nm_, nx_ in ((HP, 'unsanitized build, glibc allocator', 800 if ctx.tier == 'quick' else 6000), (HM, 'MemorySanitizer', 800 if ctx.tier == 'quick' else 6000)):
             if Hx_ is None: continue
@@ -391,8 +408,9 @@ def _run(ctx, replay):
                 ops = hidden_state_groups(g, ops, 16 if ctx.tier == 'quick' else 40)
                 if j_ % 2 == 1: ops = ['XRayInit'] + ops
                 all_ops += ops
-                if Hx_ is HM: check_msan(ops, C_ENV, 'history %d (%s)' % (j_, nm_))
-                else: check_history(ops, C_ENV, 'history %d (%s)' % (j_, nm_), H=Hx_)
+                env_j = TL(C_ENV) if j_ % 2 == 0 else C_ENV
+                if Hx_ is HM: check_msan(ops, env_j, 'history %d (%s)' % (j_, nm_))
+                else: check_history(ops, env_j, 'history %d (%s)' % (j_, nm_), H=Hx_)
         stats['distinct_ops'] = len(set(all_ops))
         # a history with explicit insertions into the built-in crystal array
         g = xrlops.OpGen(random.Random(ctx.rng.getrandbits(64)), meta, files=files)
@@ -434,7 +452,7 @@ def _run(ctx, replay):
                 else: ops = ops + good                       # … and last
                 if i % 2 == 1: ops = ['XRayInit'] + ops
                 all_ops += ops
-                check_history(ops, C_ENV, 'Kissel history %d (regenerated kissel_pe.dat)' % i, H=HR)
+                check_history(ops, TL(C_ENV) if i % 2 == 0 else C_ENV, 'Kissel history %d (regenerated kissel_pe.dat)' % i, H=HR)
             ksucc = {f_: 0 for f_ in famg}
             for o in ok_kissel:
                 if opname(o) in ksucc: ksucc[opname(o)] += 1
@@ -473,7 +491,8 @@ def _run(ctx, replay):
         # the locale: the application runs with every category = C.utf8 (LC_ALL), and with LC_NUMERIC=C.utf8 alone; every category is
         # compared per call (` LOCALE>`) and end to end.  (In a process whose categories are all "C" a non-restoring setlocale(LC_CTYPE /
         # LC_COLLATE / LC_ALL, "C") would be invisible.)
-        for env_, n_ in ((dict(LC_ALL='C.utf8'), 400 if ctx.tier == 'quick' else 3000), (dict(LC_NUMERIC='C.utf8'), 200 if ctx.tier == 'quick' else 1500)):
+        for env_, n_ in ((dict(LC_ALL='C.utf8'), 400 if ctx.tier == 'quick' else 3000), (dict(LC_NUMERIC='C.utf8'), 200 if ctx.tier == 'quick' else 1500),
+                         (TL(dict(LC_ALL='C.utf8'), 'C'), 200 if ctx.tier == 'quick' else 1500)):      # the reverse: process locale C.utf8, the thread's own object "C"
             g = xrlops.OpGen(random.Random(ctx.rng.getrandbits(64)), meta, files=files)
             ops = [o for o in g.ops(n_, allow_retain=True) if opname(o) not in INSERTING]
             # every entry point from which a setlocale call is reachable is in this history, whatever the seed (a protocol that does not put
@@ -517,7 +536,7 @@ def _run(ctx, replay):
                 for rnd in range(6):
                     g = xrlops.OpGen(random.Random(ctx.rng.getrandbits(64)), meta); g.fresh_p = 0.05
                     ops = [g.generic_op(g.rng.choice(ents_g)) for _ in range(800)]
-                    check_history(ops, C_ENV, 'targeted history %d (%s)' % (rnd, ','.join(ents_g[:4])))
+                    check_history(ops, TL(C_ENV) if rnd % 2 == 1 else C_ENV, 'targeted history %d (%s)' % (rnd, ','.join(ents_g[:4])))
                     if HR is not None and any(e_ in fam for e_ in ents_g):
                         check_history([o for o in ops if opname(o) in fam] + kissel_good_ops(meta, [e_ for e_ in ents_g if e_ in fam]), C_ENV, 'targeted Kissel history %d' % rnd, H=HR)
                     if any(f['kind'] in ('result', 'tables', 'retained', 'stderr', 'stdout', 'crystal-array', 'descriptors', 'libc-state', 'uninitialised') for f in findings): break
@@ -662,7 +681,10 @@ def _run(ctx, replay):
                     'so a byte the library did not write differs; the corpus and one generated history also run in an unsanitized build (real glibc allocator, real block re-use: history_stats.histories counts them) and under '
                     'MemorySanitizer (history_stats.msan_ops: a scalar of a returned object that was never written is rendered UNINIT!, a branch on one stops the call).  Hidden C-library cursors: after EVERY call '
                     '(history_stats.libc_cursor_checks) the harness takes the next token of a strtok tokenisation it has in progress, the next rand() and lrand48() of its sequences, and compares the strings / buffers getenv, '
-                    'localtime, asctime, tmpnam, strerror returned to it, optind / opterr / optopt / optarg, ftell(stdin) + the descriptor offset, the buffering of stdout and localeconv() with what an undisturbed C library yields',
+                    'localtime, asctime, tmpnam, strerror returned to it, optind / opterr / optopt / optarg, ftell(stdin) + the descriptor offset, the buffering of stdout and localeconv() with what an undisturbed C library yields.  The calling thread\'s own locale: in a share of the histories of every build '
+                    '(history_stats.thread_locale_histories; always the corpus history C16-thread-locale, one generated AddressSanitizer history with an object for C.utf8 and one for C, the unsanitized and MemorySanitizer histories, '
+                    'the first Kissel history, one history with process locale C.utf8 and the thread on "C") the harness thread installs uselocale(newlocale(LC_ALL_MASK, name, 0)) before the history; after EVERY call '
+                    'uselocale(0) must return that handle (LC_GLOBAL_LOCALE in the other histories) and nl_langinfo(CODESET / RADIXCHAR / THOUSEP) through it must be unchanged (history_stats.thread_locale_checks)',
                samples=[dict(call=o) for o in (all_ops[:3] + all_ops[-3:] if not replay else [])] +
                        [dict(finding=f['what'], minimal_history=f.get('min'), env=f['env']) for f in findings[:3]],
                footprint=dict(functions=len(meta['functions']), public=len(meta['classes']), classes={c: sum(1 for v in meta['classes'].values() if v == c) for c in set(meta['classes'].values())},
